@@ -74,15 +74,59 @@ def render_expr(e):
         return "[" + ", ".join(render_expr(a) for a in e["items"]) + "]"
     if k == "field":
         return f"{render_expr(e['obj'])}.{e['field']}"
+    if k == "variant":
+        return f"{e['ty']}{{N}}.{e['name']}" + ("(" + ", ".join(render_expr(a) for a in e["args"]) + ")" if e["args"] else "")
+    if k == "some":
+        return f"Some({render_expr(e['e'])})"
+    if k == "nonelit":
+        return "None"
+    if k == "ok":
+        return f"Ok({render_expr(e['e'])})"
+    if k == "errx":
+        return f"Err({render_expr(e['e'])})"
+    if k == "try":
+        return render_expr(e["e"]) + "?"
     if k == "mcall":
         return f"{render_expr(e['recv'])}.{e['name']}(" + ", ".join(render_expr(a) for a in e["args"]) + ")"
     if k == "ctor":
-        return f"{e['name']}(" + ", ".join(f"{n}={render_expr(v)}" for n, v in zip(e["fnames"], e["args"])) + ")"
+        return f"{e['name']}{{N}}(" + ", ".join(f"{n}={render_expr(v)}" for n, v in zip(e["fnames"], e["args"])) + ")"
     raise ValueError(f"render_expr: unknown kind {k}")
 
 
 TY = {"int": "int", "float": "float", "bool": "bool", "str": "str", "list[int]": "List[int]", "list[str]": "List[str]",
       "none": "None"}
+
+
+ENUM_OF = {"Dot": "Shape", "Circle": "Shape", "Rect": "Shape"}
+
+
+def render_pat(p):
+    k = p["k"]
+    if k == "pwild":
+        return "_"
+    if k == "pbind":
+        return p["name"]
+    if k == "plit":
+        return render_expr(p["lit"])
+    if k == "pctor":
+        head = p["name"] if p["name"] in ("Some", "None", "Ok", "Err") else f"{ENUM_OF[p['name']]}{{N}}.{p['name']}"
+        return head + ("(" + ", ".join(render_pat(x) for x in p["pats"]) + ")" if p["pats"] else "")
+    raise ValueError(k)
+
+
+def render_match_lines(e, ind):
+    """arms in `pattern => expr` form; a match with a guarded arm is written in the `case pattern if guard: expr` form
+    (guards are only part of the `case` syntax)"""
+    pad = " " * (4 * ind)
+    out = []
+    guarded = any(a["guard"] for a in e["arms"])
+    for a in e["arms"]:
+        g = f" if {render_expr(a['guard'][0])}" if a["guard"] else ""
+        if guarded:
+            out.append(f"{pad}case {render_pat(a['pat'])}{g}: {render_expr(a['e'])}")
+        else:
+            out.append(f"{pad}{render_pat(a['pat'])} => {render_expr(a['e'])}")
+    return out
 
 
 def render_block(stmts, ind):
@@ -110,6 +154,8 @@ def render_stmt(s, ind):
     if k == "assign":
         kw = {"let": "let ", "mut": "mut ", "inferred": ""}[s["bk"]]
         ann = f": {TY[s['ty']]}" if s.get("ty") else ""
+        if s["e"]["k"] == "match":
+            return [f"{pad}{kw}{s['name']}{ann} = match {render_expr(s['e']['subj'])}:"] + render_match_lines(s["e"], ind + 1)
         return [f"{pad}{kw}{s['name']}{ann} = {render_expr(s['e'])}"]
     if k == "compound":
         return [f"{pad}{s['name']} {s['op']}= {render_expr(s['e'])}"]
@@ -167,7 +213,47 @@ def to_project_expr(e):
                 "end": P_opt(e["end"], to_project_expr), "step": P_opt(e["step"], to_project_expr)}
     if k == "list":
         return {"k": "list", "items": [to_project_expr(a) for a in e["items"]]}
+    if k == "ctor":
+        return {"k": "call", "f": {"k": "ident", "name": e["name"]},
+                "args": [{"ak": "named", "name": n, "e": to_project_expr(a)} for n, a in zip(e["fnames"], e["args"])]}
+    if k == "field":
+        return {"k": "fieldx", "obj": to_project_expr(e["obj"]), "field": e["field"]}
+    if k == "variant":
+        if e["args"]:
+            return {"k": "mcall", "recv": {"k": "ident", "name": e["ty"]}, "name": e["name"],
+                    "args": [{"ak": "pos", "e": to_project_expr(a)} for a in e["args"]]}
+        return {"k": "fieldx", "obj": {"k": "ident", "name": e["ty"]}, "field": e["name"]}
+    if k in ("some", "ok", "errx"):
+        return {"k": "call", "f": {"k": "ident", "name": {"some": "Some", "ok": "Ok", "errx": "Err"}[k]},
+                "args": [{"ak": "pos", "e": to_project_expr(e["e"])}]}
+    if k == "nonelit":
+        return {"k": "lit", "lk": "none"}
+    if k == "try":
+        return {"k": "try", "e": to_project_expr(e["e"])}
+    if k == "match":
+        guarded = any(a["guard"] for a in e["arms"])     # rendered in `case` form: the parser stores `case p: e` as a one-statement block
+        return {"k": "match", "subj": to_project_expr(e["subj"]),
+                "arms": [{"k": "arm", "pat": to_project_pat(a["pat"]), "guard": [to_project_expr(a["guard"][0])] if a["guard"] else [],
+                          "abk": "block" if guarded else "expr",
+                          "e": [] if guarded else [to_project_expr(a["e"])],
+                          "body": [{"k": "expr", "e": to_project_expr(a["e"])}] if guarded else []} for a in e["arms"]]}
     raise ValueError(f"to_project_expr: {k}")
+
+
+def to_project_pat(p):
+    k = p["k"]
+    if k == "pwild":
+        return {"k": "pwild"}
+    if k == "pbind":
+        return {"k": "pbind", "name": p["name"]}
+    if k == "plit":
+        return {"k": "plit", "lit": to_project_expr(p["lit"])}
+    if k == "pctor":
+        if p["name"] == "None" and not p["pats"]:
+            return {"k": "plit", "lit": {"k": "lit", "lk": "none"}}      # the parser reads `None` in a pattern as a literal
+        name = p["name"] if p["name"] in ("Some", "None", "Ok", "Err") else f"{ENUM_OF[p['name']]}::{p['name']}"
+        return {"k": "pctor", "name": name, "pats": [to_project_pat(x) for x in p["pats"]]}
+    raise ValueError(k)
 
 
 def P_ty(t):
